@@ -134,6 +134,7 @@ type GenOpts struct {
 	EditOps                []string // edit alphabet
 	Kinds                  []string // if set, each program focuses on a drawn subset of these kinds
 	SchedOps               []string // schedule alphabet, e.g. sync, pushonly, attach, detach
+	ExtraOps               []string // extra edit ops added to the pool when their kind is in focus (bias)
 	SyncWeight             int      // how many times "sync" is repeated in the pool
 	Snapshots              bool     // draw small interval/threshold
 	MaxTail                int
@@ -179,6 +180,14 @@ func Gen(o GenOpts) *rapid.Generator[Program] {
 			}
 		}
 		pool := append([]string{}, editOps...)
+		for _, x := range o.ExtraOps {
+			for _, e := range editOps {
+				if e == x {
+					pool = append(pool, x)
+					break
+				}
+			}
+		}
 		nSync := max(o.SyncWeight, len(editOps)*o.SyncWeight/12)
 		for i := 0; i < nSync; i++ {
 			pool = append(pool, "sync")
